@@ -69,7 +69,14 @@ pub fn plain_text(r: &mut Rng, cols: usize, max_lines: usize) -> Vec<String> {
                 6 => 1,
                 _ => r.range(0, 2 * cols),
             };
-            match r.below(10) {
+            match r.below(11) {
+                10 => {
+                    // leading spaces (also whole rows of them) before some text
+                    let t = r.range(0, len);
+                    let mut s = " ".repeat(len - t);
+                    s.extend((0..t).map(|_| printable(r)));
+                    s
+                }
                 0 => " ".repeat(len),
                 1 => {
                     // trailing spaces after some text
